@@ -3,10 +3,14 @@ mod config;
 mod paths;
 mod runtime;
 mod storage;
+#[cfg(feature = "verif")]
+pub mod verif;
 
 pub use block::Entry;
 pub use config::{FsyncSchedule, PREFIX_META_SIZE, disable_fd_backend, enable_fd_backend};
 pub use runtime::{ReadConsistency, WalIndex, Walrus, WalrusBuilder};
+#[cfg(feature = "verif")]
+pub use runtime::{verif_block_states, verif_file_states};
 
 #[doc(hidden)]
 pub fn __set_thread_namespace_for_tests(key: &str) {
